@@ -922,7 +922,7 @@ StepSet(p, a) ==
 \* the fields the model claims (everything except ghost history, budgets and rollout-id strings)
 ModelView(s) == [ro |-> [s.ro EXCEPT !.rid = "", !.aux = ""], br |-> [s.br EXCEPT !.rid = "", !.obsRid = ""],
                  \* pod labels are decided by LabelPatch.tla (C12); the closed-loop model only reads the count
-                 wl |-> [s.wl EXCEPT !.lab = <<>>, !.labelled = 0],
+                 wl |-> [s.wl EXCEPT !.lab = <<>>, !.labelled = 0, !.rid = ""],
                  net |-> [s.net EXCEPT !.svcSelKeys = 0], mem |-> s.mem, user |-> s.user, tr |-> s.tr]
 
 RecDiff(a, b, pfx) == {pfx \o "." \o f : f \in {g \in DOMAIN a : a[g] # b[g]}}
